@@ -54,8 +54,12 @@ theorem accepted_unchanged (addr : Addr) (custom : Event) (r : Response) :
   EngineB.accepted_unchanged addr custom r
 
 /-- non-vacuity -/
-example : responseOk { attrs := [⟨" key ", ""⟩], events := [{ ty := "ab", attrs := [⟨"k", ""⟩] }] } = true := by decide
-example : responseOk { attrs := [⟨" _key", "v"⟩] } = false := by decide
+-- PROOF CHANGED (statement unchanged): `String.startsWith` does not reduce in the kernel, so `decide`
+-- fails; `simp` evaluates the string operations on the literals instead.
+example : responseOk { attrs := [⟨" key ", ""⟩], events := [{ ty := "ab", attrs := [⟨"k", ""⟩] }] } = true := by
+  simp [responseOk, attrOk, eventOk, rtrim, trimChars, isWhite]; decide
+example : responseOk { attrs := [⟨" _key", "v"⟩] } = false := by
+  simp [responseOk, attrOk, rtrim, trimChars, isWhite]
 example : responseOk { events := [{ ty := " a ", attrs := [] }] } = false := by decide
 example : responseOk { attrs := [⟨" ", "v"⟩] } = false := by decide
 
